@@ -21,6 +21,12 @@ struct Buf {
     Buf(const Buf&) = delete;
 };
 
+#ifdef VP_ASAN
+static const int PLACEMENTS[] = { 2 };
+#else
+static const int PLACEMENTS[] = { 0, 1 };
+#endif
+
 // element-wise chains, reductions and view access on 1-D maps of a size that is not a multiple of any vector width
 template <class T, size_t N>
 void map1d(Ctx& c) {
@@ -62,6 +68,32 @@ void map1d(Ctx& c) {
             { T acc = T(0); for (size_t i = 0; i < N; i += st) acc += ra[i]; T got; VP_LIB(got = sum(a(seq(0, (int)N, st)))); c.eqn(got, acc, "sum(map(seq))", (long)st); }
             if (N >= 2) { std::memcpy(r.data(), rb, sizeof rb); launder(r.data()); VP_LIB(r(seq((int)N - 1, (int)N)) = T(77)); c.eq(r.data()[N - 1], T(77), "r(last)=77", (long)N - 1); }
         }
+        ba.verify(c, "a"); bb.verify(c, "b"); br.verify(c, "r");
+        ++c.sub;
+    }
+    c.nontrivial = true;
+}
+
+// complex element types have their own vector classes with split real/imaginary loads and stores (aligned and unaligned variants each):
+// element-wise chains, fill, copy and reductions on wrapped buffers at every element misalignment
+template <class T, size_t N>
+void map1d_cplx(Ctx& c) {
+    Rng g = c.rng();
+    T ra[N], rb[N];
+    for (int pl : PLACEMENTS) for (size_t mis = 0; mis < 64; mis += sizeof(T) / 2) {
+        if (pl != 0 && mis) break;
+        Buf ba(sizeof(T) * N, pl, mis), bb(sizeof(T) * N, pl, mis), br(sizeof(T) * N, pl, mis);
+        TensorMap<T, N> a((T*)ba.p), b((T*)bb.p), r((T*)br.p);
+        fill_small(ra, N, g, 5); fill_small(rb, N, g, 5); std::memcpy(a.data(), ra, sizeof ra); std::memcpy(b.data(), rb, sizeof rb); launder(a.data()); launder(b.data());
+        VP_LIB(r = a + b); for (size_t i = 0; i < N; ++i) c.eq(r.data()[i], (T)(ra[i] + rb[i]), "r=a+b (complex maps)", (long)i);
+        VP_LIB(r -= a); for (size_t i = 0; i < N; ++i) c.eq(r.data()[i], rb[i], "r-=a (complex maps)", (long)i);
+        VP_LIB(r += a); for (size_t i = 0; i < N; ++i) c.eq(r.data()[i], (T)(ra[i] + rb[i]), "r+=a (complex maps)", (long)i);
+        VP_LIB(r = a); for (size_t i = 0; i < N; ++i) c.eq(r.data()[i], ra[i], "r=a (complex maps)", (long)i);
+        VP_LIB(r = a * b); for (size_t i = 0; i < N; ++i) c.eqn(r.data()[i], (T)(ra[i] * rb[i]), "r=a*b (complex maps)", (long)i);
+        VP_LIB(r.fill(T(2, -3))); for (size_t i = 0; i < N; ++i) c.eq(r.data()[i], T(2, -3), "r.fill (complex map)", (long)i);
+        VP_LIB(r.zeros()); for (size_t i = 0; i < N; ++i) c.eq(r.data()[i], T(0, 0), "r.zeros (complex map)", (long)i);
+        { T s; VP_LIB(s = sum(a)); T w = T(0); for (size_t i = 0; i < N; ++i) w += ra[i]; c.eqn(s, w, "sum(complex map)", 0); }
+        { Tensor<T, N> own; VP_LIB(own = a - b); for (size_t i = 0; i < N; ++i) c.eq(own.data()[i], (T)(ra[i] - rb[i]), "tensor=a-b (complex maps)", (long)i); VP_LIB(r = own); for (size_t i = 0; i < N; ++i) c.eq(r.data()[i], (T)(ra[i] - rb[i]), "map=tensor (complex)", (long)i); }
         ba.verify(c, "a"); bb.verify(c, "b"); br.verify(c, "r");
         ++c.sub;
     }
@@ -110,11 +142,6 @@ template <class Obj> struct Placed {
     void verify(Ctx& c, const char* w) { if (g) g->verify(c, w); }
     Placed(const Placed&) = delete;
 };
-#ifdef VP_ASAN
-static const int PLACEMENTS[] = { 2 };
-#else
-static const int PLACEMENTS[] = { 0, 1 };
-#endif
 
 template <class T, class E = void> struct FloatOnly1 { template <size_t N> static void run(Ctx&, Tensor<T, N>&, Tensor<T, N>&, const T*) {} };
 template <class T> struct FloatOnly1<T, typename std::enable_if<std::is_floating_point<T>::value>::type> {
